@@ -84,6 +84,13 @@ fn conf_from_idx(mut idx: u64) -> Option<Conf> {
 
 fn raw(next: u8, units: usize, fill: u8) -> Ipv6RawExtHeader {
     let payload = vec![fill; 6 + 8 * units];
+    if units == 1 {
+        // a header that held a longer payload before: stale bytes behind the live ones must not
+        // take part in equality or encoding
+        let mut h = Ipv6RawExtHeader::new_raw(IpNumber(next), &vec![0xEEu8; 6 + 8 * 5]).unwrap();
+        h.set_payload(&payload).unwrap();
+        return h;
+    }
     Ipv6RawExtHeader::new_raw(IpNumber(next), &payload).unwrap()
 }
 
@@ -559,6 +566,108 @@ impl C12 {
             }
         }
         rep.count("set_next_headers_ok");
+        // the wrappers, started from a chain that is already consistent and already ends in n but
+        // is linked with fragment and authentication header swapped: linking must still produce
+        // RFC 8200 order
+        if c.frag.is_some() && c.auth.is_some() {
+            let mut pre = exts2.clone();
+            // RFC order with auth in front of fragment
+            let mut order: Vec<&str> = Vec::new();
+            if c.hbh.is_some() {
+                order.push("hbh");
+            }
+            if c.dest.is_some() {
+                order.push("dest");
+            }
+            if c.route.is_some() {
+                order.push("route");
+            }
+            order.push("auth");
+            order.push("frag");
+            if c.fin.is_some() {
+                order.push("fin");
+            }
+            let num = |k: &str| -> u8 {
+                match k {
+                    "hbh" => 0,
+                    "dest" | "fin" => 60,
+                    "route" => 43,
+                    "frag" => 44,
+                    _ => 51,
+                }
+            };
+            for (i, k) in order.iter().enumerate() {
+                let nx = IpNumber(if i + 1 < order.len() { num(order[i + 1]) } else { n });
+                match *k {
+                    "hbh" => pre.hop_by_hop_options.as_mut().unwrap().next_header = nx,
+                    "dest" => pre.destination_options.as_mut().unwrap().next_header = nx,
+                    "route" => pre.routing.as_mut().unwrap().routing.next_header = nx,
+                    "fin" => pre.routing.as_mut().unwrap().final_destination_options.as_mut().unwrap().next_header = nx,
+                    "frag" => pre.fragment.as_mut().unwrap().next_header = nx,
+                    _ => pre.auth.as_mut().unwrap().next_header = nx,
+                }
+            }
+            let pre_first = IpNumber(num(order[0]));
+            let mut base = Ipv6Header::default();
+            base.next_header = pre_first;
+            for wrapper in ["Ipv6Extensions::set_next_headers", "IpHeaders::set_next_headers", "NetHeaders::try_set_next_headers"] {
+                rep.evals += 1;
+                let r = shell::guarded(|| {
+                    let ih = match wrapper {
+                        "Ipv6Extensions::set_next_headers" => {
+                            let mut e = pre.clone();
+                            let mut b = base.clone();
+                            b.next_header = e.set_next_headers(IpNumber(n));
+                            IpHeaders::Ipv6(b, e)
+                        }
+                        "IpHeaders::set_next_headers" => {
+                            let mut ih = IpHeaders::Ipv6(base.clone(), pre.clone());
+                            ih.set_next_headers(IpNumber(n));
+                            ih
+                        }
+                        _ => {
+                            let mut nh = NetHeaders::Ipv6(base.clone(), pre.clone());
+                            let _ = nh.try_set_next_headers(IpNumber(n));
+                            match nh {
+                                NetHeaders::Ipv6(b, e) => IpHeaders::Ipv6(b, e),
+                                _ => unreachable!(),
+                            }
+                        }
+                    };
+                    let mut o = Vec::new();
+                    let w = ih.write(&mut o).map_err(|e| format!("{:?}", e));
+                    (w, o)
+                });
+                match r {
+                    Ok((Ok(()), o)) if o.len() >= 40 => match parse_chain(o[6], &o[40..]) {
+                        Some((seq, fin)) => {
+                            let got: Vec<u8> = seq.iter().map(|s| s.0).collect();
+                            if got != want || fin != n {
+                                rep.violation(
+                                    &format!("set_next_headers|order_from_prelinked|{}", wrapper),
+                                    format!("{} on a chain pre-linked as {:?} -> {}: written order {:?} -> {} but RFC 8200 order is {:?} -> {}", wrapper, order, n, got, fin, want, n),
+                                    &o,
+                                );
+                                return;
+                            }
+                            rep.count("set_next_headers_from_prelinked_ok");
+                        }
+                        None => {
+                            rep.violation(&format!("set_next_headers|unparsable_from_prelinked|{}", wrapper), format!("{:?}", order), &o);
+                            return;
+                        }
+                    },
+                    Ok((w, o)) => {
+                        rep.violation(&format!("set_next_headers|write_from_prelinked|{}", wrapper), format!("{:?}: write -> {:?}", order, w), &o);
+                        return;
+                    }
+                    Err(p) => {
+                        rep.violation(&format!("panic|set_next_headers|{}", p.location()), format!("{}: {}", wrapper, p.0), &[]);
+                        return;
+                    }
+                }
+            }
+        }
         rep.sig(&format!("setnext|{}|{}", combo, want.len()));
     }
 
